@@ -66,9 +66,7 @@ def make_proc_class():
                 self.data = np.asarray(self.data.compute())
             return super(RowProc, self)._unit_computation(*args, **kwargs)
 
-        @staticmethod
-        def _map_function(row, *args, **kwargs):
-            return logged_map(row, *args, **kwargs)
+        _map_function = staticmethod(logged_map)
 
     return RowProc
 
